@@ -27,7 +27,28 @@ REMOVERS = ("remove", "pop_front", "pop_back", "pop", "clear", "retain", "trunca
 INSERTERS = ("insert", "push_back", "push_front", "push", "put")
 
 
+def _is_expiry_test(tr, e0):
+    """e0 returns `<field of self>.elapsed() > <parameter>` (or >=)"""
+    for (i, j, node) in ret_assigns(tr, e0):
+        for lf in leaves(node):
+            cm = normalise_cmp(tr, lf)
+            if cm is None:
+                continue
+            op, x, y = cm
+            if op in ("Lt", "Le"):
+                op, x, y = {"Lt": "Gt", "Le": "Ge"}[op], y, x
+            el = calls_in(tr, x, lambda c: c.name == "elapsed")
+            if op in ("Gt", "Ge") and el:
+                recv = peel(tr.expand(tr.operand(el[0].g.b, el[0].args[0], el[0].loc)))
+                ttl_side = any(n[0] == "param" for n in tr.walk(y, limit=30))
+                if recv[0] == "field" and peel(recv[1])[0] == "param" and ttl_side:
+                    return True
+    return False
+
+
 def run(facts, tr, rep):
+    _n_ops = check_no_panicking_time_arith(facts, tr, rep, "C10.NO-PANIC-ARITH", facts.crates["tower_resilience_cache"].bodies)
+    rep.note("panicking Instant/Duration operators examined: %d" % _n_ops)
     sbs = service_call_bodies(facts, crate=CRATE)
     if not sbs:
         rep.anchor_missing("Service::call of the cache service")
@@ -169,42 +190,27 @@ def run(facts, tr, rep):
         rep.saw(sg)
         gs = graph(sg)
         nsome = 0
+        expiry_fns = set()
         for (i, j, node) in ret_assigns(tr, sg):
             if node[0] == "agg" and tr.agg_of(node)[1].get("variant") == "Some":
                 nsome += 1
                 ok = False
                 for e in dominating_edges(tr, sg, i):
-                    if e["kind"] == "bool" and e["label"] == "false" and e["node"][0] == "call" and tr.call_of(e["node"]).name == "is_expired":
+                    if e["kind"] == "bool" and e["label"] == "false" and e["node"][0] == "call":
                         ec = tr.call_of(e["node"])
-                        ttl = tr.expand(tr.operand(sg, ec.args[1], ec.loc))
-                        ok = mentions_field(tr, ttl, "ttl")
+                        hb = [facts.bodies.get(d) for d in ec.targets_def()]
+                        hb = [h for h in hb if h is not None and h.crate.name == CRATE and h.local_ty(0)["s"] == "bool" and _is_expiry_test(tr, h)]
+                        if hb and len(ec.args) >= 2:
+                            expiry_fns.update(h.def_ for h in hb)
+                            ttl = tr.expand(tr.operand(sg, ec.args[1], ec.loc))
+                            ok = ok or mentions_field(tr, ttl, "ttl")
                 rep.ob("C10.EXPIRY", skey(sg, "some#%d" % (nsome - 1)), ok, gs.where(i, j),
                        "a stored value is returned only when entry.is_expired(self.ttl) is false" if ok else
                        "a stored value can be returned without the expiry test on the configured ttl")
         rep.floor("C10.get-some-returns", nsome, 1)
-    ie = [b for b in facts.crates[CRATE].bodies if b.name == "is_expired"]
-    if not ie:
-        rep.anchor_missing("CacheEntry::is_expired")
-    else:
-        e0 = ie[0]
-        rep.saw(e0)
-        ok = False
-        for (i, j, node) in ret_assigns(tr, e0):
-            for lf in leaves(node):
-                cm = normalise_cmp(tr, lf)
-                if cm is None:
-                    continue
-                op, x, y = cm
-                if op in ("Lt", "Le"):
-                    op, x, y = {"Lt": "Gt", "Le": "Ge"}[op], y, x
-                el = calls_in(tr, x, lambda c: c.name == "elapsed")
-                if op in ("Gt", "Ge") and el:
-                    recv = peel(tr.expand(tr.operand(el[0].g.b, el[0].args[0], el[0].loc)))
-                    ttl_side = any(n[0] == "param" for n in tr.walk(y, limit=30))
-                    if recv[0] == "field" and peel(recv[1])[0] == "param" and ttl_side:
-                        ok = True
-        rep.ob("C10.EXPIRY", skey(e0, "definition"), ok, "%s:%d" % (e0.span["file"], e0.span["line"]),
-               "is_expired is inserted_at.elapsed() > ttl" if ok else "is_expired is not inserted_at.elapsed() > ttl")
+    rep.ob("C10.EXPIRY", "%s|expiry-predicate" % CRATE, bool(store_get) and bool(expiry_fns), "-",
+           "the expiry predicate consulted by the lookup is elapsed(inserted_at) > ttl (%s)" % sorted(x.split("::")[-1] for x in expiry_fns) if store_get and expiry_fns else
+           "no predicate of the form inserted_at.elapsed() > ttl guards the lookup")
     # ---------------------------------------------------------------- CAPACITY / COHERENT
     impls = []
     for im in facts.crates[CRATE].impls:
@@ -295,7 +301,7 @@ def run(facts, tr, rep):
                 if sw is None or sw.kind != "bool":
                     continue
                 cm = normalise_cmp(tr, peel(tr.expand(tr.operand(ins, sw.cond, (bb, len(gi.stmts(bb)))))))
-                if cm and cm[0] in ("Ge", "Gt") and calls_in(tr, cm[1], lambda x: x.name == "len") and mentions_field(tr, cm[2], "capacity"):
+                if cm and cm[0] in ("Ge", "Gt") and calls_in(tr, cm[1], lambda x: x.name == "len") and (mentions_field(tr, cm[2], "max_size") or mentions_field(tr, cm[2], "capacity")):
                     cap_edges.append((bb, sw.variants["false"]) if cm[0] == "Ge" else None)
                     if cm[0] == "Gt":
                         cap_edges[-1] = None
